@@ -265,6 +265,32 @@ impl<'a> Tr<'a> {
                         return unsupported("let-else", l.span());
                     }
                     let c = self.comp(&init.expr, &mut env, &mut pre, false)?;
+                    if c.ty() == Ty::NewBuf {
+                        // `let buf = <constructor>`: in a constructor, the buffer being built (the state), a
+                        // local with a destructor until it is returned
+                        let id = match &l.pat {
+                            Pat::Ident(pi) if pi.by_ref.is_none() && pi.subpat.is_none() && pi.attrs.is_empty() => pi.ident.clone(),
+                            _ => return unsupported("pattern binding a buffer", l.pat.span()),
+                        };
+                        if self.me.ret != Ty::NewBuf || self.in_loop || self.depth > 1 || env.values().any(|v| v.ty == Ty::Buf) {
+                            return unsupported(
+                                "`let` of a buffer by value other than the buffer a constructor builds (in the model the buffer is the state of the computation)",
+                                l.span(),
+                            );
+                        }
+                        self.coq_ident(&id)?;
+                        if !shadowed.iter().any(|(m, _)| m == &id.to_string()) {
+                            shadowed.push((id.to_string(), env.get(&id.to_string()).cloned()));
+                        }
+                        self.emit(&mut pre, &env, None, c)?;
+                        env.insert(id.to_string(), Val::atom("<buffer>", Ty::Buf));
+                        self.live.push(id.to_string());
+                        mine.push(id.to_string());
+                        continue;
+                    }
+                    if c.ty() == Ty::UninitItems {
+                        return unsupported(&format!("`let` of a {}", c.ty().show()), l.span());
+                    }
                     let simple_name = |p: &Pat| -> Option<syn::Ident> {
                         match p {
                             Pat::Ident(pi) if pi.by_ref.is_none() && pi.subpat.is_none() && pi.attrs.is_empty() => Some(pi.ident.clone()),
@@ -494,7 +520,13 @@ impl<'a> Tr<'a> {
                         // values without a destructor may be dropped on the floor
                         Ty::Usize | Ty::Bool | Ty::Ref | Ty::Slice | Ty::Ptr if semi.is_some() => {}
                         Ty::Opt(t) if semi.is_some() && matches!(*t, Ty::Usize | Ty::Bool | Ty::Ref | Ty::Slice) => {}
-                        // an Option<T> that is thrown away is destroyed
+                        // an Option<T> that is thrown away is destroyed; when T: Copy there is nothing to destroy
+                        Ty::Opt(t) if semi.is_some() && *t == Ty::Elem && self.me.copy_elems => {
+                            if !matches!(c, Comp::Ret(_)) {
+                                self.emit(&mut pre, &env, None, c)?;
+                            }
+                            continue;
+                        }
                         Ty::Opt(t) if semi.is_some() && *t == Ty::Elem => {
                             let v = self.bind_val(c, &env, &mut pre, e.span())?;
                             self.emit(&mut pre, &env, None, Comp::Op("drop_opt".into(), vec![v], Ty::Unit))?;
@@ -585,10 +617,11 @@ impl<'a> Tr<'a> {
         }
         let k = self.loops;
         self.loops += 1;
-        let fuel_tpl = match self.fuel.get(k) {
+        let fuel_tpl = match self.fuel.get(self.fuel_ix) {
             Some(f) => *f,
             None => return unsupported("loop for which no bound on the number of iterations (fuel) is recorded", w.span()),
         };
+        self.fuel_ix += 1;
         let fname = format!("gen_{}_loop{}", self.me.key, k + 1);
         // the variables the loop mentions become its parameters, in the order they appear
         let mut names: Vec<String> = vec![];
